@@ -2,6 +2,9 @@
 package eccdefault
 
 import (
+	"crypto/ecdsa"
+	"errors"
+
 	"github.com/xuperchain/crypto/client/service/xchain"
 	"github.com/xuperchain/xupercore/lib/crypto/client/base"
 )
@@ -17,4 +20,19 @@ type XchainCryptoClient struct {
 func GetInstance() base.CryptoClient {
 	xcCryptoClient := XchainCryptoClient{}
 	return &xcCryptoClient
+}
+
+// GetEcdsaPublicKeyFromJsonStr parses a json encoded public key and refuses points that are not on
+// the curve: the standard library panics ("attempted operation on invalid point") as soon as such a
+// key is marshalled to derive its address, and public keys arrive in transactions and blocks from
+// untrusted peers.
+func (xcc *XchainCryptoClient) GetEcdsaPublicKeyFromJsonStr(keyStr string) (*ecdsa.PublicKey, error) {
+	pub, err := xcc.XchainCryptoClient.GetEcdsaPublicKeyFromJsonStr(keyStr)
+	if err != nil {
+		return nil, err
+	}
+	if pub == nil || pub.Curve == nil || pub.X == nil || pub.Y == nil || !pub.Curve.IsOnCurve(pub.X, pub.Y) {
+		return nil, errors.New("invalid public key: point is not on the curve")
+	}
+	return pub, nil
 }
